@@ -23,7 +23,7 @@ warnings.filterwarnings('ignore')
 from common import Str, sx
 
 ID = 'C02'
-LEAN_MODULES = ['Cellml.C02.Table', 'Cellml.Props.C02', 'Cellml.Tie.Transpile', 'Cellml.Tie.TranspileClosed', 'Cellml.Props.C02Gen']
+LEAN_MODULES = ['Cellml.C02.Table', 'Cellml.Props.C02', 'Cellml.Tie.Transpile', 'Cellml.Tie.TranspileClosed', 'Cellml.Props.C02Gen', 'Cellml.Tie.WalkGen']
 N = {'quick': 500, 'thorough': 20000}
 RULE = ('exhaustive tier (always, about 4 000 trees): every tag of the generated operator table and the 6 explicit '
         'operator handlers (56) x arity 0..4 x operand mode (distinct symbols / numeric literals incl. negative, zero, '
